@@ -53,6 +53,15 @@ def dotted(node):
     return None
 
 
+def dotted_or_super(f):
+    """dotted name of a callee; `super().m` for a method of the base class"""
+    pat = dotted(f)
+    if pat is None and isinstance(f, ast.Attribute) and isinstance(f.value, ast.Call) and dotted(f.value.func) == "super" \
+            and not f.value.args and not f.value.keywords:
+        pat = "super()." + f.attr
+    return pat
+
+
 def load_constants(paths):
     """NAME = 'text' and NAME = [NAME, ...] assignments of the given modules."""
     out = {}
@@ -94,6 +103,15 @@ class Fn:
 
     # ------------------------------------------------------------------ expressions
     def expr(self, e):
+        if self.spec.get("opaque_exprs"):
+            try:
+                src_ = ast.unparse(e)
+            except Exception:
+                src_ = None
+            if src_ in self.spec["opaque_exprs"]:
+                term_, ty_ = self.spec["opaque_exprs"][src_]
+                self.notes.append("`%s` is declared: %s" % (src_, term_))
+                return self.subst(term_), ty_
         if isinstance(e, ast.Constant):
             v = e.value
             if v is True or v is False:
@@ -272,6 +290,10 @@ class Fn:
             return t
         if want == "option " + ty:
             return "(Some %s)" % t
+        if ty == "str" and want == "cv":
+            return "(VText %s)" % t
+        if ty == "str" and want == "option cv":
+            return "(Some (VText %s))" % t
         raise Unsupported("cannot use a %s as %s" % (ty, want))
 
     def facts_of(self, node, positive):
@@ -525,6 +547,30 @@ class Fn:
             return self.block(rest)
         if isinstance(st, ast.Expr) and isinstance(st.value, ast.Constant) and isinstance(st.value.value, str):
             return self.block(rest)
+        if isinstance(st, (ast.Import, ast.ImportFrom)) and self.spec.get("allow_imports"):
+            return self.block(rest)             # an import inside the function: the names it binds are declared
+        if isinstance(st, ast.Try) and not st.orelse and not st.finalbody and len(st.handlers) == 1 and len(st.body) == 1 \
+                and isinstance(st.body[0], ast.Assign) and len(st.body[0].targets) == 1 and isinstance(st.body[0].targets[0], ast.Name) \
+                and isinstance(st.body[0].value, ast.Call) and dotted_or_super(st.body[0].value.func) in self.spec.get("raising_calls", {}) \
+                and dotted(st.handlers[0].type) == self.spec["raising_calls"][dotted_or_super(st.body[0].value.func)]["raises"] \
+                and st.handlers[0].name is None:
+            # try: x = f(args) / except E: BODY      f is declared to answer `option T`: None = it raised E
+            rc = self.spec["raising_calls"][dotted_or_super(st.body[0].value.func)]
+            args = [self.expr(a) for a in st.body[0].value.args]
+            if len(args) != len(rc["args"]):
+                raise Unsupported("raising call with %d arguments" % len(args))
+            args = [self.coerce(a, t, w) for (a, t), w in zip(args, rc["args"])]
+            call = "(" + " ".join([self.subst(rc["fn"])] + args) + ")"
+            target = st.body[0].targets[0].id
+            v = self.new(target + "_")
+            saved = dict(self.state), dict(self.env), set(self.facts)
+            self.env[target] = ("(Some %s)" % v if self.env.get(target, ("", ""))[1].startswith("option ") or rc.get("wrap") else v,
+                                rc.get("bind_type", rc["ret"]))
+            ok_branch = self.block(list(rest))
+            self.state, self.env, self.facts = dict(saved[0]), dict(saved[1]), set(saved[2])
+            ex_branch = self.block(list(st.handlers[0].body) + list(rest))
+            self.state, self.env, self.facts = saved
+            return "(match %s with Some %s => %s | None => %s end)" % (call, v, ok_branch, ex_branch)
         if isinstance(st, ast.AnnAssign) and st.value is None:
             return self.block(rest)             # a bare annotation
         if isinstance(st, ast.Try) and not st.orelse and not st.finalbody and st.handlers and self.spec.get("isolating_try") \
@@ -1449,6 +1495,20 @@ SPECS = [
          params="(config : args) (current_frame_index : Z)", ret="bool", args=["self", "current_frame_index"],
          constants=["api/tracepoint/constants.py"],
          env={"self.location_action.config": ("config", "args"), "current_frame_index": ("current_frame_index", "Z")}),
+    # ---- how a setting resolves (C19): the service object's own attributes, the code-supplied map, deep.config, the DEEP_ variable
+    dict(group="Resolve", name="gen_getattribute", path="config/config_service.py", cls="ConfigService", func="__getattribute__",
+         params="(own_get custom_get dflt_get : str -> option cv) (has_default : str -> bool) (env_get : str -> option str) (name : str)",
+         ret="option cv", value_type="option cv", args=["self", "name"], allow_imports=True, noop_calls=["logging.warning"],
+         env={"name": ("name", "str")},
+         raising_calls={"super().__getattribute__": dict(fn="own_get", args=["str"], ret="cv", raises="AttributeError", wrap=True,
+                                                         bind_type="option cv")},
+         opaque_exprs={"self.__custom is not None and name in self.__custom": ("(match custom_get name with Some _ => true | None => false end)", "bool"),
+                       "self.__custom[name]": ("(custom_get name)", "option cv"),
+                       "os.getenv('DEEP_%s' % name, None)": ("(env_get name)", "option str"),
+                       "hasattr(config, name)": ("(has_default name)", "bool"),
+                       "getattr(config, name, None)": ("(dflt_get name)", "option cv"),
+                       "callable(attr)": ("(is_callable_opt (as_opt_cv {attr}))", "bool"),
+                       "attr()": ("(call_opt (as_opt_cv {attr}))", "option cv")}),
     # ---- truth words (C10 condition gate, C19 boolean settings)
     dict(group="Truth", name="gen_str2bool", path="utils.py", cls=None, func="str2bool",
          params="(string : str)", ret="bool", args=["string"], env={"string": ("string", "str")}),
@@ -1470,6 +1530,7 @@ GROUPS = {           # generated file -> (imports, which properties' theorems ar
     "Event": ("From Deep Require Import Base Match PureSupport.", ["C03"]),
     "Select": ("From Deep Require Import Base TriggerTable PureSupport.", ["C02"]),
     "Truth": ("From Deep Require Import Base Config PureSupport.", ["C10", "C19"]),
+    "Resolve": ("From Deep Require Import Base Config PureSupport.", ["C19"]),
     "Gate": ("From Deep Require Import Base Config Limiter Cond PureSupport.\nFrom DeepGen Require Import PTruth.", ["C10"]),
     "Table": ("From Deep Require Import Base Match TriggerTable PureSupport.", ["C11"]),
     "Frames": ("From Deep Require Import Base PureSupport.", ["C19", "C02"]),
